@@ -407,7 +407,7 @@ Lemma pres_exit fx s m w s' :
   Inv s -> Sim s m -> do_exit fx s w = Some s' -> Inv s' /\ Sim s' m.
 Proof.
   intros IV S H. unfold do_exit in H.
-  destruct (st_phase s) eqn:P; try discriminate. destruct fx; [|discriminate].
+  destruct (st_phase s) eqn:P; try discriminate. destruct (v_fix fx); [|discriminate].
   assert (A : active (st_gor s w) /\ s' = set_gor s w GExited).
   { destruct (st_gor s w); try discriminate; inversion H; split; auto; exact I. }
   clear H. destruct A as [A ->].
@@ -556,8 +556,8 @@ Proof.
 Qed.
 
 (** a goroutine's resolution is received and delivered *)
-Lemma pres_recv s m w s' :
-  Inv s -> Sim s m -> do_recv s w = Some s' ->
+Lemma pres_recv fx s m w s' :
+  Inv s -> Sim s m -> do_recv fx s w = Some s' ->
   exists m', mon_step p m (LRecv w) = Some m' /\ Inv s' /\ Sim s' m'.
 Proof.
   intros IV S H. unfold do_recv in H.
@@ -615,11 +615,13 @@ Proof.
     destruct (c_top s IV P) as [w0 [W0 [W1 W2]]].
     destruct (live_inv _ _ W1) as [it0 [L0 [PR0 [NI0 _]]]].
     destruct (st_chained s w) eqn:CH.
-    + inversion H; subst s'; clear H.
-      destruct (c_chained s IV w CH) as [it' [L' I']]. rewrite L in L'. inversion L'; subst it'.
-      split; [apply INV1 | apply SIM1]; simpl; rewrite ?P; try congruence; auto.
-      * intros _. exists w0. repeat split; auto. intro; subst. congruence.
-      * intros x X. destruct (upd_cases (st_chained s) w false x) as [[_ E]|[_ E]]; rewrite E in X; [discriminate|auto].
+    + destruct (c_chained s IV w CH) as [it' [L' I']]. rewrite L in L'. inversion L'; subst it'.
+      assert (CHS : forall x, upd (st_chained s) w false x = true -> st_chained s x = true).
+      { intros x X. destruct (upd_cases (st_chained s) w false x) as [[_ E]|[_ E]]; rewrite E in X; [discriminate|auto]. }
+      destruct (v_loop fx); inversion H; subst s'; clear H.
+      * split; [apply INV1 | apply SIM1]; simpl; rewrite ?P; try congruence; auto.
+        intros _. exists w0. repeat split; auto. intro; subst. congruence.
+      * split; [apply INV1 | apply SIM1]; simpl; rewrite ?P; try congruence; auto.
     + inversion H; subst s'; clear H.
       split; [apply INV1 | apply SIM1]; simpl; rewrite ?P; try congruence; auto.
   - inversion H; subst s'; clear H.
